@@ -126,11 +126,17 @@ Definition mat_eqb (a b : list (list Zi)) : bool := list_eqb zi_list_eqb a b.
    turned into collapsing ones by later gates *)
 From QV Require Import C03.ModelCircuit.
 
-Inductive xop := XM (qs : list nat) (name : option nat) (c : bool) | XG (g : gapp Zi).
+(* XC q terms : RX(q, theta = pi * sum_j coef_j * result_j.symbols[bit_j]) -- a gate whose angle is
+   an integer combination (coef, measurement index, bit index) of collapsed outcomes *)
+Inductive xop :=
+| XM (qs : list nat) (name : option nat) (c : bool)
+| XG (g : gapp Zi)
+| XC (q : nat) (terms : list (nat * nat * nat)).
 Definition xop_cop (x : xop) : cop :=
   match x with
   | XM qs nm c => AddM qs nm c
   | XG (cs, ts, _) => AddG (cs ++ ts)          (* gate.qubits = control_qubits + target_qubits *)
+  | XC q _ => AddG [q]
   end.
 Definition build_circ (xs : list xop) : option circ := add_ops circ0 (map xop_cop xs).
 
@@ -144,11 +150,33 @@ Definition circ_eqb (a b : circ) : bool :=
    (circuit.measurements) are sampled once from the final state.
    Result: recorded bits per collapsing measurement (by index), rows per remaining register,
    and whether every drawn outcome had non-zero probability *)
+(* RX(k pi) = cos(k pi/2) I - i sin(k pi/2) X, exact over Z[i] *)
+Definition rx_kpi (k : nat) : list (list Zi) :=
+  match k mod 4 with
+  | 0 => [[zi1; zi0]; [zi0; zi1]]
+  | 1 => [[zi0; (0, -1)%Z]; [(0, -1)%Z; zi0]]
+  | 2 => [[(-1, 0)%Z; zi0]; [zi0; (-1, 0)%Z]]
+  | _ => [[zi0; zii]; [zii; zi0]]
+  end.
+(* MeasurementSymbol(bit, result_midx).outcome(): the bit recorded by THAT measurement in this shot *)
+Definition symbol_value (racc : list (nat * bits)) (midx bit : nat) : nat :=
+  match find (fun p => fst p =? midx) racc with
+  | Some p => if nth bit (snd p) false then 1 else 0
+  | None => 0
+  end.
+Definition angle_k (racc : list (nat * bits)) (terms : list (nat * nat * nat)) : nat :=
+  fold_right (fun t acc => fst (fst t) * symbol_value racc (snd (fst t)) (snd t) + acc) 0 terms.
+
 Fixpoint exec_items (n : nat) (fin : circ) (xs : list xop) (midx : nat) (psi : list Zi) (draws : list nat)
-  : option (list (nat * bits) * list Zi * list nat * bool) :=
+         (racc : list (nat * bits)) (kacc : list nat) (ok : bool)
+  : option (list (nat * bits) * list nat * list Zi * list nat * bool) :=
   match xs with
-  | [] => Some ([], psi, draws, true)
-  | XG g :: xs' => exec_items n fin xs' midx (mat_vec (gmat Ziops n g) psi) draws
+  | [] => Some (racc, kacc, psi, draws, ok)
+  | XG g :: xs' => exec_items n fin xs' midx (mat_vec (gmat Ziops n g) psi) draws racc kacc ok
+  | XC q terms :: xs' =>
+      (* gate.substitute_symbols() evaluates the angle with the outcomes recorded so far *)
+      let k := angle_k racc terms in
+      exec_items n fin xs' midx (mat_vec (gmat Ziops n ([], [q], rx_kpi k)) psi) draws racc (kacc ++ [k]) ok
   | XM _ _ _ :: xs' =>
       let m := nth midx (k_ms fin) mrec0 in
       if m_coll m then
@@ -156,28 +184,33 @@ Fixpoint exec_items (n : nat) (fin : circ) (xs : list xop) (midx : nat) (psi : l
         | d :: ds =>
             let a := m_apply n (m_qs m) d psi in
             match collapsed a with
-            | Some psi' =>
-                match exec_items n fin xs' (S midx) psi' ds with
-                | Some (rec, pf, dr, ok) => Some ((midx, recorded a) :: rec, pf, dr, ok && negb (Z.eqb (cnorm2 a) 0%Z))
-                | None => None
-                end
+            | Some psi' => exec_items n fin xs' (S midx) psi' ds (racc ++ [(midx, recorded a)]) kacc
+                                      (ok && negb (Z.eqb (cnorm2 a) 0%Z))
             | None => None
             end
         | [] => None
         end
-      else exec_items n fin xs' (S midx) psi draws
+      else exec_items n fin xs' (S midx) psi draws racc kacc ok
   end.
 
-Definition exec_shot (n : nat) (fin : circ) (xs : list xop) (psi : list Zi) (draws : list nat)
-  : option (list (nat * bits) * list bits * bool) :=
-  match exec_items n fin xs 0 psi draws with
-  | Some (rec, pf, d :: _, ok) =>
+(* recorded bits per collapsing measurement, the multiples of pi seen by the conditioned gates,
+   rows per remaining register, sampler contract *)
+Definition exec_shot_full (n : nat) (fin : circ) (xs : list xop) (psi : list Zi) (draws : list nat)
+  : option (list (nat * bits) * list nat * list bits * bool) :=
+  match exec_items n fin xs 0 psi draws [] [] true with
+  | Some (rec, ks, pf, d :: _, ok) =>
       let regs := map (fun i => m_qs (nth i (k_ms fin) mrec0)) (k_meas fin) in
       let Q := global_qubits regs in
       let row := to_bin (length Q) d in
-      Some (rec, map (fun reg => take_cols (reg_cols Q reg) row) regs,
+      Some (rec, ks, map (fun reg => take_cols (reg_cols Q reg) row) regs,
             ok && in_support (length Q) (calc_probs_state n Q pf) d)
   | _ => None
+  end.
+Definition exec_shot (n : nat) (fin : circ) (xs : list xop) (psi : list Zi) (draws : list nat)
+  : option (list (nat * bits) * list bits * bool) :=
+  match exec_shot_full n fin xs psi draws with
+  | Some (rec, _, fr, ok) => Some (rec, fr, ok)
+  | None => None
   end.
 
 Definition rec_eqb (a b : list (nat * bits)) : bool :=
@@ -193,6 +226,20 @@ Definition shot_check (n : nat) (xs : list xop) (psi : list Zi) (draws : list na
       | None => [false; false; false; false]
       end
   | None => [false; false; false; false]
+  end.
+
+(* the same with the multiples of pi that the gates conditioned on collapsed outcomes received:
+   [model ran; recorded agree; conditioned angles agree; final rows agree; sampler contract] *)
+Definition shot_check_cond (n : nat) (xs : list xop) (psi : list Zi) (draws : list nat)
+           (impl_rec : list (nat * bits)) (impl_ks : list nat) (impl_final : list bits) : list bool :=
+  match build_circ xs with
+  | Some fin =>
+      match exec_shot_full n fin xs psi draws with
+      | Some (rec, ks, fr, ok) =>
+          [true; rec_eqb rec impl_rec; list_eqb Nat.eqb ks impl_ks; list_eqb bits_eqb fr impl_final; ok]
+      | None => [false; false; false; false; false]
+      end
+  | None => [false; false; false; false; false]
   end.
 
 (* ---- deterministic bit-flip noise (p0 = p1 in {0,1} per qubit): the noisy shot is the
